@@ -5,5 +5,9 @@ import Refine.Gen.CellTables
 import Refine.Gen.PartMacros
 import Refine.Model.CellTopo
 import Refine.Model.Geom
+import Refine.Model.Status
+import Refine.Model.ContainersSort
+import Refine.Model.Containers
+import Refine.Model.ContainersAdj
 import Refine.Lemmas.ScalarReal
 import Refine.Props.C15
